@@ -59,7 +59,7 @@ def one(seed, checks):
     finally:
         sh("git -C /repo worktree remove --force %s" % repo)
         shutil.rmtree(base, ignore_errors=True)
-    if NOSTORE or seed.startswith("CLEAN"):
+    if NOSTORE or seed.startswith(("CLEAN", "_revert")):
         return seed, {c: (d["exit"], str(d["replay_required"])[:110]) for c, d in det.items()}
     mp = os.path.join(V, "seeded", seed, "meta.json")
     meta = json.load(open(mp))
@@ -98,7 +98,7 @@ def main():
     os.makedirs(BASE, exist_ok=True)
     bad = 0
     with ThreadPoolExecutor(j) as ex:
-        futs = [ex.submit(one, s, checks or EXTRA.get(s) or [s.split("-")[1 if s.startswith("CLEAN-") else 0]]) for s in ids]     # CLEAN-<x>: the unchanged tree, needs --checks
+        futs = [ex.submit(one, s, checks or EXTRA.get(s) or [s.split("-")[1 if s.startswith(("CLEAN-", "_revert-")) else 0]]) for s in ids]     # CLEAN-<x>: the unchanged tree, needs --checks
         for f in futs:
             try:
                 seed, r = f.result()
